@@ -51,6 +51,10 @@ pub enum Op {
     /// (0 epoch settings, 1 protocol configuration, 2 register signer, 3 register signatures) is in flight: the
     /// aggregator has processed the request in the old epoch, the signer sees the answer in the new one
     EpochChangeInFlight(u8),
+    /// a pool that has stake in the aggregator's view of the chain but not in the signer's node's registers with the
+    /// aggregator now (it is announced among the next signers during the next epoch and among the current ones
+    /// during the one after)
+    GhostRegisters,
 }
 
 impl Op {
@@ -67,6 +71,7 @@ impl Op {
             Op::PublishFail(n) => format!("P{n}"),
             Op::Restart => "R".into(),
             Op::EpochChangeInFlight(r) => format!("E{}", r % 4),
+            Op::GhostRegisters => "H".into(),
         }
     }
     fn is_fault(&self) -> bool {
@@ -102,6 +107,7 @@ fn op_strategy() -> impl Strategy<Value = Op> {
         3 => (1u8..=4).prop_map(Op::PublishFail),
         4 => Just(Op::Restart),
         3 => (0u8..4).prop_map(Op::EpochChangeInFlight),
+        1 => Just(Op::GhostRegisters),
     ]
 }
 
@@ -142,7 +148,7 @@ static FIXTURE: OnceLock<Fixture> = OnceLock::new();
 fn fixture() -> &'static Fixture {
     FIXTURE.get_or_init(|| {
         let fx = MithrilFixtureBuilder::default()
-            .with_signers(1 + OTHERS)
+            .with_signers(2 + OTHERS)
             .with_protocol_parameters(ProtocolParameters { k: 2, m: 6, phi_f: 1.0 })
             .with_stake_distribution(StakeDistributionGenerationMethod::Uniform(100))
             .build();
@@ -162,10 +168,14 @@ fn stake_of(salt: u8, epoch: u64, idx: usize) -> u64 {
     100 + ((salt as u64 + 7 * epoch + 13 * idx as u64) % 50) * 10
 }
 
+/// index of the ghost pool in the fixture (see `Op::GhostRegisters`): never part of the signer's node's stake distribution
+const GHOST: usize = 1 + OTHERS;
+
 fn stakes_for_epoch(salt: u8, epoch: u64) -> Vec<SignerWithStake> {
     fixture()
         .signers
         .iter()
+        .take(GHOST)
         .enumerate()
         .map(|(i, s)| SignerWithStake { stake: stake_of(salt, epoch, i), ..s.clone() })
         .collect()
@@ -227,9 +237,13 @@ struct World {
 impl World {
     async fn set_epoch_stakes(&mut self, epoch: u64) {
         let sws = stakes_for_epoch(self.salt, epoch);
-        let map: BTreeMap<String, u64> = sws.iter().map(|s| (s.party_id.clone(), s.stake)).collect();
+        let mut map: BTreeMap<String, u64> = sws.iter().map(|s| (s.party_id.clone(), s.stake)).collect();
         self.env.set_stakes(sws).await;
-        self.env.agg.state.lock().unwrap().stakes.insert(epoch, map);
+        let mut st = self.env.agg.state.lock().unwrap();
+        if let Some((party, stake)) = st.ghost.clone() {
+            map.insert(party, stake);
+        }
+        st.stakes.insert(epoch, map);
     }
 
     fn next_step(&mut self) {
@@ -321,7 +335,7 @@ impl World {
             Op::Tick if std::mem::take(&mut self.crashed_in_step) => StepKind::Disturbance,
             Op::Tick if epoch_changed_in_flight => StepKind::Disturbance,
             Op::Tick => StepKind::Tick,
-            Op::OthersRegister(_) => StepKind::Neutral,
+            Op::OthersRegister(_) | Op::GhostRegisters => StepKind::Neutral,
             _ => StepKind::Disturbance,
         };
         self.record(kind).await;
@@ -353,6 +367,16 @@ impl World {
             }
             Op::Restart => self.restart().await,
             Op::EpochChangeInFlight(route) => self.env.agg.state.lock().unwrap().bump_after = Some(route % 4),
+            Op::GhostRegisters => {
+                let ghost = &fixture().signers[GHOST];
+                let mut st = self.env.agg.state.lock().unwrap();
+                if st.ghost.is_none() {
+                    st.ghost = Some((ghost.party_id.clone(), 170));
+                    let epoch = st.epoch;
+                    st.stakes.entry(epoch).or_default().insert(ghost.party_id.clone(), 170);
+                }
+                st.register_other(ghost.clone().into());
+            }
         }
     }
 }
@@ -424,13 +448,18 @@ fn execute(case: &Case) -> Result<(AggState, RunInfo), String> {
         // healthy ticks, a new beacon, healthy ticks ----
         w.info.epilogue_first_step = w.step + 1;
         w.env.agg.state.lock().unwrap().heal();
-        for _ in 0..3 {
+        for _ in 0..7 {
             let (has_cur, has_next) = {
                 let st = w.env.agg.state.lock().unwrap();
-                (
-                    sut_registered_during(&st, epoch as i64 - REG_TO_SIGNING as i64),
-                    sut_registered_during(&st, epoch as i64 + 1 - REG_TO_SIGNING as i64),
-                )
+                if st.ghost_announced_in(epoch) {
+                    // the signer cannot even register while a signer without stake (in its node's view) is announced
+                    (false, false)
+                } else {
+                    (
+                        sut_registered_during(&st, epoch as i64 - REG_TO_SIGNING as i64),
+                        sut_registered_during(&st, epoch as i64 + 1 - REG_TO_SIGNING as i64),
+                    )
+                }
             };
             if has_cur && has_next {
                 break;
@@ -536,6 +565,12 @@ fn judge(st: &AggState, info: &RunInfo) -> Verdict {
         }
     }
 
+    if st.ghost.is_some() {
+        v.labels.push("ghost-signer-registered".into());
+        if st.sig_requests.iter().any(|r| st.ghost_announced_in(r.receipt_epoch)) {
+            v.labels.push("signature-request-while-ghost-announced".into());
+        }
+    }
     for (_, _, route, _) in &st.bumps {
         v.labels.push(format!("epoch-change-in-flight:after-{}", ["epoch-settings", "protocol-configuration", "register-signer", "register-signatures"][(*route % 4) as usize]));
     }
@@ -734,6 +769,10 @@ fn judge(st: &AggState, info: &RunInfo) -> Verdict {
         if !(sut_registered_during(st, e as i64 - 2) && sut_registered_during(st, e as i64 - 1)) {
             continue;
         }
+        if st.ghost_announced_in(e) {
+            // the environment is inconsistent (see `Op::GhostRegisters`): no progress is owed, only silence
+            continue;
+        }
         // cycles needed to be in ReadyToSign{e} from the observed state, then 3 beacons
         let to_ready = match (start.state.as_str(), start.state_epoch) {
             ("Init", _) => 2,
@@ -793,6 +832,9 @@ fn judge(st: &AggState, info: &RunInfo) -> Verdict {
         }
         let e = start.epoch;
         if !st.stakes.get(&e).is_some_and(|m| m.contains_key(&st.sut_party)) {
+            continue;
+        }
+        if st.ghost_announced_in(e) {
             continue;
         }
         let to_registered = match (start.state.as_str(), start.state_epoch) {
@@ -1085,6 +1127,7 @@ pub fn run(args: &Args) -> i32 {
         .require_label("fault-hit:stale-epoch-settings")
         .require_label("fault-hit:round-closed")
         .require_label("fault-hit:publish-fail")
+        .require_label("ghost-signer-registered")
         .require_label("epoch-change-in-flight:after-epoch-settings")
         .require_label("epoch-change-in-flight:after-protocol-configuration")
         .require_label("epoch-change-in-flight:after-register-signer")
